@@ -185,6 +185,56 @@ Proof. exact swap_costs_two. Qed.
 Print Assumptions C05_swap_costs_two.
 
 (* ---------------------------------------------------------------------------------------------
+   Reading not implemented by the code (reported as a finding): "the pairing a TP had in the previous
+   frame" with the previous result judged as the previous frame's evaluation judged it -- by its OWN
+   label's threshold, and only if its label is evaluated.  The code judges the previous result with
+   the CURRENT result's threshold, whatever the previous result's label.
+   --------------------------------------------------------------------------------------------- *)
+Definition C05_prev_tp_by_own_label_statement : Prop :=
+  forall m T (prevs curs : frame),
+  (NoDup (map est_key prevs) /\ NoDup (gt_ids prevs)) -> (NoDup (map est_key curs) /\ NoDup (gt_ids curs)) ->
+  let a := calc_tp_fp m T prevs curs in
+  c_tp a = countb (spec_tp_own m T prevs) curs /\ c_sw a = countb (spec_sw_own m T prevs) curs.
+
+(* witness 1 (labels CAR=1 thr 1, PEDESTRIAN=6 thr 2, policy ALLOW_UNKNOWN): estimate 0 (UNKNOWN) was a
+   PEDESTRIAN TP at 1.5 m and is now a CAR TP on another ground truth: no switch is counted.
+   witness 2 (label CAR only, policy ALLOW_ANY): estimate 0 (CAR) was matched to a TRUCK ground truth
+   (not an evaluated result: neither TP nor FP) and is now a CAR TP: a switch IS counted. *)
+Theorem C05_prev_tp_by_own_label_refuted :
+  (exists m T prevs curs,
+     (NoDup (map est_key prevs) /\ NoDup (gt_ids prevs)) /\ (NoDup (map est_key curs) /\ NoDup (gt_ids curs)) /\
+     c_sw (calc_tp_fp m T prevs curs) = 0%nat /\ countb (spec_sw_own m T prevs) curs = 1%nat) /\
+  (exists m T prevs curs,
+     (NoDup (map est_key prevs) /\ NoDup (gt_ids prevs)) /\ (NoDup (map est_key curs) /\ NoDup (gt_ids curs)) /\
+     c_sw (calc_tp_fp m T prevs curs) = 1%nat /\ countb (spec_sw_own m T prevs) curs = 0%nat /\
+     countb (is_target T) prevs = 0%nat).
+Proof.
+  split.
+  - exists Dist, [(1%nat, 1); (6%nat, 2)], [mkR 0 0 (Some (mkG 0 6 false true (3#2)))], [mkR 0 0 (Some (mkG 1 1 false true (1#2)))].
+    repeat split; try (vm_compute; reflexivity); repeat constructor; simpl; intuition.
+  - exists Dist, [(1%nat, 1)], [mkR 0 1 (Some (mkG 0 2 false true (1#4)))], [mkR 0 1 (Some (mkG 1 1 false true (1#4)))].
+    repeat split; try (vm_compute; reflexivity); repeat constructor; simpl; intuition.
+Qed.
+Print Assumptions C05_prev_tp_by_own_label_refuted.
+
+Theorem C05_prev_tp_by_own_label_contradicts : ~ C05_prev_tp_by_own_label_statement.
+Proof.
+  intros H. destruct C05_prev_tp_by_own_label_refuted as [(m & T & prevs & curs & U1 & U2 & E1 & E2) _].
+  destruct (H m T prevs curs U1 U2) as [_ Hs]. cbv zeta in Hs. rewrite E1, E2 in Hs. discriminate.
+Qed.
+Print Assumptions C05_prev_tp_by_own_label_contradicts.
+
+(* the two readings coincide when all evaluated labels share one threshold and every previous result
+   is of an evaluated label (e.g. a per-label history under the default label policy) *)
+Theorem C05_prev_tp_by_own_label_partial : forall m T t0 (prevs curs : frame),
+  (forall l t, In (l, t) T -> t = t0) -> (forall p, In p prevs -> is_target T p = true) ->
+  (forall t, pairing_consistent m t prevs) ->
+  let a := calc_tp_fp m T prevs curs in
+  c_tp a = countb (spec_tp_own m T prevs) curs /\ c_sw a = countb (spec_sw_own m T prevs) curs.
+Proof. exact prev_tp_own_partial. Qed.
+Print Assumptions C05_prev_tp_by_own_label_partial.
+
+(* ---------------------------------------------------------------------------------------------
    Non-vacuity: concrete histories that satisfy the hypotheses and exercise the interesting branches
    --------------------------------------------------------------------------------------------- *)
 Definition ex_T : targets := [(1%nat, 1); (6%nat, 1 # 2)].
